@@ -50,6 +50,12 @@ def check_model(ctx, out, rule="C07.model"):
                     return LM.lst(())
                 if re.search(r"<impl str>::trim$", nm) and line_of(a0) is not None:
                     return CW.sym("trim", a0)
+                if re.search(r"<impl str>::(trim|trim_start|trim_end)$", nm) and a0[0] == "sym" and a0[1] in ("trim", "trim_start", "trim_end") and len(a0) > 2:
+                    # the two half-trims compose to `trim()` in either order; trimming a trimmed text again changes nothing
+                    k_ = nm.rsplit("::", 1)[1]
+                    if a0[1] == "trim" or k_ == "trim" or k_ != a0[1]:
+                        return CW.sym("trim", a0[2])
+                    return a0
                 if re.search(r"<impl str>::(trim_start|trim_end|trim_ascii\w*|trim_matches|to_\w+|replace\w*)$", nm) and a0[0] == "sym":
                     return CW.sym(nm.split("::")[-1], a0)
                 if re.search(r"<impl str>::is_empty$", nm) and a0[0] == "sym":
